@@ -42,7 +42,8 @@ UTypes ==
         fields |-> [ set |-> FD(S, <<AD("s", S)>>), a |-> FD(Named("A"), <<>>) ] ],
     Named |->
       [ kind |-> "INTERFACE", ifaces |-> <<>>, members |-> <<>>,
-        fields |-> [ name |-> FD(S, <<>>) ] ],
+        fields |-> [ name |-> FD(S, <<>>),
+                     peer |-> FD(Named("Named"), <<>>) ] ],     \* implemented covariantly: A.peer : B, B.peer : A
     A |->
       [ kind |-> "OBJECT", ifaces |-> <<"Named">>, members |-> <<>>,
         fields |->
